@@ -1,6 +1,7 @@
 import Ogorek.Props.C16
 import Ogorek.Props.C03
 import Ogorek.Lemmas.Bridge
+import Ogorek.Lemmas.Resolve
 
 /-!
   C05 — Every decoded value re-encodes at every protocol and decodes back to itself.
@@ -190,7 +191,7 @@ theorem C05_decodes_back (ip : IsPrint) (hip : ip 10 = false) (cfg : Cfg) (inp :
   have hk' : HeapKeys st' := by
     have := decode_heapKeys (goCfg cfg) none st0 inp hk0
     rw [hdec] at this; exact this
-  have hc : canon cfg v = true := canon_of_rep (mc := goCfg cfg) hk' v hrep hw hs
+  have hc : canon cfg v = true := canon_of_rep (mc := goCfg cfg) (fun o ho => (hk' o ho).1) v hrep hw hs
   exact C03_roundtrip ip hip c cfg v hp0 hp5 hsu hc hf he st1
 
 
@@ -206,5 +207,28 @@ example : ∃ r st', decode (goCfg { pyDict := true, su := false }) none {} [125
       [{ kind := .dict, kvs := [(.int 1, .list []), (.tuple [.int 2], .none)] }] := by rfl
   rw [hh]
   simp [Rep, RepList, RepPairs, dictKind, goCfg]
+
+/-- **C05 (the fuzz target's invariant, for the model).** Whenever a fresh Decoder accepts a byte string
+    and the result, with its containers unfolded (`resolveV`), is acyclic (`noCycle`) and of encodable
+    shape (`shapeOK`): at every protocol 0..5 at which `Encode` of that value returns no error, decoding
+    the bytes written — by any Decoder of the same configuration in any state — succeeds, consumes them
+    all and returns a result that stands for the very same value.  No hypothesis about the unfolded value
+    remains to be shown by the caller: that it is of documented types is `C16_resolved`, that the result
+    stands for it is `rep_resolve`, that it is canonical is `canon_of_rep` from the key invariant. -/
+theorem C05_reencode (ip : IsPrint) (hip : ip 10 = false) (cfg : Cfg) (inp : Bytes)
+    (r : GoVal) (st' : DState) (rest : Bytes) (hdec : decode (goCfg cfg) none {} inp = (.ok r, st', rest)) (fuel : Nat)
+    (hn : noCycle (resolveV st'.heap fuel r) = true) (hs : shapeOK cfg (resolveV st'.heap fuel r) = true)
+    (c : ECfg) (hp0 : 0 ≤ c.proto) (hp5 : c.proto ≤ 5) (hsu : cfg.su = c.su)
+    (hf : FloatsOK c (floatsOf (resolveV st'.heap fuel r)))
+    (he : (encodeTop ip c none (resolveV st'.heap fuel r)).err = none) (st1 : DState) :
+    ∃ r2 st2, decode (goCfg cfg) none st1 (flat (encodeTop ip c none (resolveV st'.heap fuel r))) = (.ok r2, st2, []) ∧
+      Rep (goCfg cfg) st2.heap r2 (resolveV st'.heap fuel r) := by
+  obtain ⟨hinv, hwf⟩ := C16_result_wf (goCfg cfg) none (by simp [HookOK]) {} inp r st' rest (Inv.init _ _) hdec
+  have hk' : HeapKeys st' := by
+    have := decode_heapKeys (goCfg cfg) none {} inp HeapKeys.init
+    rw [hdec] at this; exact this
+  have hrep := rep_resolve cfg st' hinv (fun o ho => (hk' o ho).2) fuel r hwf hn
+  have hw := C16_resolved cfg false st' hinv fuel r hwf
+  exact C05_decodes_back ip hip cfg inp {} HeapKeys.init r st' rest hdec _ hrep hw hs c hp0 hp5 hsu hf he st1
 
 end Ogorek
